@@ -1021,6 +1021,19 @@ func TestVerifC17(t *testing.T) {
 				{Kind: "set", Old: b, Loc: b, Enabled: true}, {Kind: "refresh"}}, []string{"pre-set-disabled-then-enable"})
 		c17History(t, out, tr, dataDir, nil, nil, nil, []c17Op{{Kind: "add", Loc: b}}, []string{"pre-no-patterns"})
 	}
+	// set_url whose download says "no changes" (a source without rules): the
+	// stored file is removed; and a failed set_url leaves everything, the
+	// remembered checksum included, so the next refresh of the same content
+	// updates nothing.
+	for _, src := range []string{"http://lists.example/a.txt", R + "/safe/a.txt"} {
+		c17History(t, out, tr, dataDir, safe, []c17Plant{{URL: src, Enabled: true, Loaded: 77}}, nil,
+			[]c17Op{{Kind: "set", Old: src, Loc: "http://lists.example/blank.txt", Enabled: true}, {Kind: "refresh"}}, []string{"pre-set-no-rules-removes-file"})
+		c17History(t, out, tr, dataDir, safe, []c17Plant{{URL: src, Enabled: false, Loaded: 77}}, nil,
+			[]c17Op{{Kind: "set", Old: src, Loc: "http://lists.example/blank.txt", Enabled: false}, {Kind: "set", Old: "http://lists.example/blank.txt", Loc: "http://lists.example/blank.txt", Enabled: true}}, []string{"pre-set-no-rules-removes-file"})
+		c17History(t, out, tr, dataDir, safe, []c17Plant{{URL: src, Enabled: true}}, nil,
+			[]c17Op{{Kind: "refresh"}, {Kind: "set", Old: src, Loc: "http://lists.example/missing.txt", Enabled: true}, {Kind: "refresh"},
+				{Kind: "set", Old: src, Loc: R + "/safe/missing.txt", Enabled: true}, {Kind: "periodic", Due: []string{src}}}, []string{"pre-set-failed-keeps-checksum"})
+	}
 	// a malformed pattern that the configuration check does not notice
 	c17History(t, out, tr, dataDir, []string{R + "/safe/*["}, []c17Plant{{URL: R + "/safe/a.txt", Enabled: true}, {URL: "http://lists.example/a.txt", Enabled: true}}, nil,
 		[]c17Op{{Kind: "add", Loc: R + "/safe/a.txt"}, {Kind: "refresh"}, {Kind: "add", Loc: R + "/secret/s.txt"}}, []string{"pre-unnoticed-bad-pattern"})
